@@ -27,7 +27,7 @@ ASSUMPTIONS = [
     "entries of a user dictionary for keys beyond the 20 amino acids take no part in the reduction nor in the alphabet",
 ]
 REQUIRED = {"all": ["cells_checked", "sizes_rejected", "laws_checked", "user_total_accepted", "user_invalid_rejected",
-                    "user_switch_on_same_object", "size_forms_accepted", "user_total_with_extra_keys"]}
+                    "user_switch_on_same_object", "size_forms_accepted", "user_total_with_extra_keys", "user_bijections"]}
 SIZES = [2, 3, 4, 5, 6, 8, 10, 11, 12, 15, 18, 20]
 NSEQ = {"quick": 600, "thorough": 4000}
 NUSER = {"quick": 800, "thorough": 6000}
@@ -164,7 +164,16 @@ def judge_user(case, rep, S):
     for step in range(4):
         images = rng.sample(list(M.AA), rng.randint(1, 6))
         ua = {a: rng.choice(images) for a in M.AA}
-        kind = rng.choice(["total", "total", "total_with_extras", "partial", "lower_value", "non_aa_value", "non_dict", "wrong_type_value"])
+        kind = rng.choice(["total", "total", "total_with_extras", "bijection", "partial", "replaced_key", "lower_value", "non_aa_value",
+                           "non_dict", "wrong_type_value"])
+        if kind == "bijection":
+            letters = list(M.AA)
+            rng.shuffle(letters)
+            ua = dict(zip(M.AA, letters))           # a one-to-one relabelling: still applied residue by residue
+            if rng.random() < 0.3:
+                ua = {a: {"D": "E", "E": "D", "K": "R", "R": "K"}.get(a, a) for a in M.AA}
+            rep.cnt("user_bijections")
+            kind = "total"
         if kind == "total_with_extras":
             # entries for keys that are not amino acids (ambiguity codes, lower case) are not part of the alphabet
             for extra in rng.sample(["B", "Z", "X", "U", "a", "k", "*"], rng.randint(1, 3)):
@@ -197,6 +206,10 @@ def judge_user(case, rep, S):
             bad = dict(ua)
             if kind == "partial":
                 del bad[rng.choice(list(M.AA))]
+            elif kind == "replaced_key":
+                gone = rng.choice([a for a in M.AA if a not in seq] or list(M.AA))     # still exactly 20 entries
+                del bad[gone]
+                bad[rng.choice(["X", "B", gone.lower(), "TRP", 7])] = rng.choice(list(M.AA))
             elif kind == "lower_value":
                 bad[rng.choice(list(M.AA))] = rng.choice(list(M.AA)).lower()
             elif kind == "non_aa_value":
